@@ -83,28 +83,40 @@ def check_formatter_details(chk) -> None:
     an = [s for s in fi.node.body if isinstance(s, ast.If) and "atom_name" in norm(s.test)]
     ok = len(an) == 1 and norm(an[0].test) == "len(atom_name) < 4 and atom_name[:1].isalpha()" and [norm(s) for s in an[0].body] == ["atom_name_fmt = (' ' + atom_name).ljust(4)"] and [norm(s) for s in an[0].orelse] == ["atom_name_fmt = atom_name.ljust(4)"]
     chk.expect(ok, "atom-name-alignment", fi.where, "names shorter than 4 starting with a letter are indented by one column, all names occupy 4 columns", "atom name alignment rule changed", K(fi, "atom-name"))
-    # charge formatting: numeric -> digit + sign
-    cf = [s for s in ast.walk(fi.node) if isinstance(s, ast.Assign) and norm(s.targets[0]) == "charge_fmt" and isinstance(s.value, ast.JoinedStr)]
-    ok = False
-    found = {}
-    if len(cf) == 1:
-        ok = True
-        for ci, want in ((-2, "2-"), (-1, "1-"), (1, "1+"), (3, "3+")):
-            v = Folder(repo, M, {"charge_int": ci}).try_fold(cf[0].value)
-            found[ci] = v
-            ok = ok and v == want
+    # charge formatting: the fragment computing the 2-column charge field, evaluated per class of charge value
+    from sa.blockeval import BlockEval, Unknown
+
+    body = fi.node.body
+    idx = [k for k, st in enumerate(body) if any(isinstance(n, ast.Constant) and n.value == "charge" for n in ast.walk(st))]
+    line_idx = [k for k, st in enumerate(body) if isinstance(st, ast.Assign) and norm(st.targets[0]) == "line"]
+    if not idx or not line_idx:
+        chk.error("charge-format", fi.where, "charge fragment of the line formatter not found")
     else:
-        # two-step form (sign variable)
-        for ci, want in ((-2, "2-"), (-1, "1-"), (1, "1+"), (3, "3+")):
-            loc = {"charge_int": ci}
-            for s in ast.walk(fi.node):
-                if isinstance(s, ast.Assign) and isinstance(s.targets[0], ast.Name) and s.targets[0].id in ("sign", "charge_fmt") and any(n == "charge_int" or n == "sign" for n in astq.names(s.value)):
-                    v = Folder(repo, M, loc).try_fold(s.value)
-                    if v is not None:
-                        loc[s.targets[0].id] = v
-            found[ci] = loc.get("charge_fmt")
-        ok = all(found.get(ci) == want for ci, want in ((-2, "2-"), (-1, "1-"), (1, "1+"), (3, "3+")))
-    chk.expect(ok, "charge-format", fi.where, "a numeric charge n is written as |n| followed by its sign (2+, 1-)", "numeric charges are not written as digit + sign", K(fi, "charge"), expected={-2: "2-", -1: "1-", 1: "1+", 3: "3+"}, found=found)
+        frag = body[idx[0] : line_idx[0]]
+        classes = [("1", "1+"), ("-2", "2-"), ("3", "3+"), ("+1", "1+"), ("1.0", "1+"), (1, "1+"), (-2, "2-"), (2.0, "2+"), ("1+", "1+"), ("2-", "2-"), ("", "  "), (None, "  "), ("0", "  ")]
+        found, bad = {}, {}
+        try:
+            for v, want in classes:
+                ev = BlockEval(repo, M, {"atom_data": {"charge": v}})
+                ev.run(frag)
+                got = ev.env.get("charge_fmt")
+                found[repr(v)] = got
+                if got != want:
+                    bad[repr(v)] = (got, want)
+            chk.expect(
+                not bad,
+                "charge-format",
+                fi.site(frag[0]),
+                f"a numeric charge n is written as |n| followed by its sign, formatted strings are kept, absent/zero charge is blank ({len(classes)} classes of value evaluated)",
+                "the charge field is wrong for " + ", ".join(f"charge={k}: `{g}` instead of `{w}`" for k, (g, w) in list(bad.items())[:4]),
+                K(fi, "charge"),
+                expected={k: w for k, (g, w) in bad.items()},
+                found={k: g for k, (g, w) in bad.items()},
+            )
+        except Unknown as ex:
+            chk.error("charge-format", fi.site(frag[0]), f"charge fragment not evaluable: {ex}")
+        except Exception as ex:
+            chk.violation("charge-format", fi.site(frag[0]), f"the charge fragment raises {type(ex).__name__} ({ex}) for one of the charge value classes", K(fi, "charge-raises"))
 
 
 def check_other_lines(chk) -> None:
@@ -302,30 +314,97 @@ def check_field_maps(chk) -> None:
     fmts = {a: norm(v) for a, v in zip(attrs, rows)}
     ok = all(fmts.get(a, "").endswith(":.3f}'") for a in ("Cartn_x", "Cartn_y", "Cartn_z")) and all(fmts.get(a, "").endswith(":.2f}'") for a in ("occupancy", "B_iso_or_equiv"))
     chk.expect(ok, "numeric-format", wc.where, "mmCIF: coordinates .3f, occupancy and B .2f", "mmCIF numeric precision changed (coordinates .3f, occupancy/B .2f)", K(wc, "precision"))
-    # mmCIF branch of write_cif: every column, missing -> '?'
-    mm = [s for s in ast.walk(wc.node) if isinstance(s, ast.If) and norm(s.test) == "pd.isna(value)"]
-    ok = len(mm) == 1 and [norm(s) for s in mm[0].body] == ["row_data.append('?')"] and [norm(s) for s in mm[0].orelse] == ["row_data.append(str(value))"]
-    a2 = [s for s in ast.walk(wc.node) if isinstance(s, ast.Assign) and norm(s) == "attributes = list(df.columns)"]
-    chk.expect(ok and len(a2) == 1, "cif-to-cif", wc.where, "mmCIF rows are written column by column, missing values as '?'", "the mmCIF->mmCIF path does not write every column of the frame with '?' for missing values", K(wc, "cif-branch"))
+    # mmCIF branch of write_cif: every column written as text that reads back as the same value, missing -> '?'
+    _cif_branch(chk, wc)
     # placeholders written are nulls for the reader
     ph = {s.value.body.value for s in ast.walk(wc.node) if isinstance(s, ast.Assign) and isinstance(s.value, ast.IfExp) and "pd.isna" in norm(s.value.test) and isinstance(s.value.body, ast.Constant)}
     chk.expect(ph <= {"?", "."}, "null-agreement", wc.where, f"placeholders written {sorted(ph)} are mapped to None by parse_cif_atoms", f"placeholder(s) {sorted(ph - {'?', '.'})} are not null markers for the reader", K(wc, "placeholders"))
-    # charge domain: PDB digit+sign -> mmCIF integer
-    cv = [s for s in ast.walk(wc.node) if isinstance(s, ast.If) and "charge_val" in norm(s.test)]
+    # charge domain: PDB digit+sign -> mmCIF integer; the fragment from `charge_val = ...` to the row list evaluated per class of charge
+    from sa.blockeval import BlockEval, Unknown
+
     ok = False
     found = {}
-    if cv:
-        for val, want in (("1+", "1"), ("2-", "-2"), ("3+", "3"), (".", "."), ("?", "?")):
-            loc = {"charge_val": val}
-            res = _eval_block(repo, [cv[0]], loc)
-            found[val] = res.get("charge_val")
-        ok = all(found.get(v) == w for v, w in (("1+", "1"), ("2-", "-2"), ("3+", "3"), (".", ".")))
+    blk = None
+    for n in ast.walk(wc.node):
+        for fld in ("body", "orelse"):
+            b = getattr(n, fld, None)
+            if isinstance(b, list) and any(isinstance(x, ast.Assign) and norm(x.targets[0]) == "charge_val" for x in b) and any(isinstance(x, ast.Assign) and norm(x.targets[0]) == "row_data" for x in b):
+                blk = b
+    if blk is None:
+        chk.error("value-domain", wc.where, "charge conversion fragment of write_cif (PDB branch) not found")
+    else:
+        i0 = min(k for k, x in enumerate(blk) if isinstance(x, ast.Assign) and norm(x.targets[0]) == "charge_val")
+        i1 = max(k for k, x in enumerate(blk) if isinstance(x, ast.Assign) and norm(x.targets[0]) == "row_data")
+        frag = blk[i0:i1]
+        wants = (("1+", "1"), ("2-", "-2"), ("3+", "3"), (None, "."), ("1-", "-1"))
+        try:
+            for val, want in wants:
+                ev = BlockEval(repo, M, {"row": {"charge": val}})
+                ev.run(frag)
+                found[repr(val)] = ev.env.get("charge_val")
+            ok = all(found[repr(v)] == w for v, w in wants)
+        except Unknown as ex:
+            chk.error("value-domain", wc.where, f"charge conversion not evaluable: {ex}")
+            found = None
+        except Exception as ex:
+            found = {"raises": f"{type(ex).__name__}: {ex}"}
     rd = repo.func(M, "parse_cif_atoms")
     ints = None
     for s in ast.walk(rd.node):
         if isinstance(s, ast.Assign) and norm(s.targets[0]) == "int_cols":
             ints = Folder(repo, M).try_fold(s.value)
-    chk.expect(ok and ints is not None and "pdbx_formal_charge" in ints, "value-domain", wc.where, "PDB charges (2+, 1-) are converted to the integers the mmCIF reader types pdbx_formal_charge as", "pdbx_formal_charge, which the mmCIF reader types Int64, is filled with the PDB digit+sign string: charges are lost on PDB->mmCIF->PDB", K(wc, "charge-domain"), expected={"1+": "1", "2-": "-2"}, found=found)
+    if found is not None:
+      chk.expect(ok and ints is not None and "pdbx_formal_charge" in ints, "value-domain", wc.where, "PDB charges (2+, 1-) are converted to the integers the mmCIF reader types pdbx_formal_charge as", "pdbx_formal_charge, which the mmCIF reader types Int64, is filled with the PDB digit+sign string: charges are lost on PDB->mmCIF->PDB", K(wc, "charge-domain"), expected={"1+": "1", "2-": "-2"}, found=found)
+
+
+def _cif_branch(chk, wc: FuncInfo) -> None:
+    """The mmCIF->mmCIF row conversion evaluated on one representative per class of cell value."""
+    from sa.blockeval import BlockEval, Unknown
+
+    repo = chk.repo
+    br = [s2 for s2 in ast.walk(wc.node) if isinstance(s2, ast.If) and norm(s2.test) == "format_type == 'mmCIF'" and any(isinstance(n, ast.Name) and n.id == "row_data" for b in s2.body for n in ast.walk(b))]
+    a2 = [s2 for s2 in ast.walk(wc.node) if isinstance(s2, ast.Assign) and norm(s2) in ("attributes = list(df.columns)", "attributes = df.columns.tolist()", "attributes = [*df.columns]")]
+    if len(br) != 1 or len(a2) != 1:
+        if len(a2) != 1 and len(br) == 1:
+            chk.violation("cif-to-cif-form", wc.where, "the mmCIF->mmCIF path does not write every column of the frame (attributes = list(df.columns))", K(wc, "cif-branch"))
+        else:
+            chk.error("cif-to-cif", wc.where, "mmCIF branch of the row loop / attribute list not found")
+        return
+    frag = br[0].body
+    cells = [("ATOM", "ATOM"), (17, "17"), (-3, "-3"), (100.0, 100.0), (10.0, 10.0), (0.5, 0.5), (-12.125, -12.125), (0.0, 0.0), (30.0, 30.0), ("O5'", "O5'"), (None, "?"), (float("nan"), "?")]
+    bad = {}
+    try:
+        for v, want in cells:
+            row = {"c": v}
+            ev = BlockEval(repo, M, {"row": row, "attributes": ["c"], "row_data": None})
+            ev.run(frag)
+            out = ev.env.get("row_data")
+            if not (isinstance(out, list) and len(out) == 1):
+                bad[repr(v)] = out
+                continue
+            got = out[0]
+            if isinstance(want, float):
+                try:
+                    ok = isinstance(got, str) and abs(float(got) - want) < 5e-7
+                except ValueError:
+                    ok = False
+            else:
+                ok = got == want
+            if not ok:
+                bad[repr(v)] = got
+        chk.expect(
+            not bad,
+            "cif-to-cif",
+            wc.site(br[0]),
+            f"mmCIF rows are written column by column: text that reads back as the same value, missing values as '?' ({len(cells)} classes of cell evaluated)",
+            "the mmCIF->mmCIF path writes " + ", ".join(f"{k} as `{g}`" for k, g in list(bad.items())[:4]) + ": the value read back differs from the value in the table",
+            K(wc, "cif-branch"),
+            found=bad,
+        )
+    except Unknown as ex:
+        chk.error("cif-to-cif", wc.site(br[0]), f"mmCIF branch not evaluable: {ex}")
+    except Exception as ex:
+        chk.violation("cif-to-cif", wc.site(br[0]), f"the mmCIF branch raises {type(ex).__name__} ({ex}) for one of the cell classes", K(wc, "cif-branch-raises"))
 
 
 def _eval_block(repo, stmts, loc):
@@ -390,6 +469,7 @@ def run(chk) -> None:
     )
     chk.trusted = ["CPython ast", "mmcif writer/reader quoting and tokenising", "pandas dtype coercions", "wwPDB column table"]
     chk.assumptions = ["data fit PDB field widths (the statement's precondition)"]
+    chk.robust |= {"writer-layout", "writer-reader-columns", "charge-format", "cif-to-cif", "pdb-record-filter", "pdb-decode-v2", "pdb-slices-agree", "pdb-slices-v2", "value-domain", "null-agreement"}
     formatter_layout(chk)
     check_formatter_details(chk)
     check_other_lines(chk)
